@@ -187,3 +187,8 @@ def run(ctx):
     # ---- the same search loop on BINARY64 score tables of the real built-in scorers (Model/Generic.v at Model/GenericF.v), bit for bit ----
     from harness import floatstreams
     floatstreams.pelt_float_stream(ctx, ctx.n(24, 160))
+
+    # ---- glue between the user's data and the search loop (harness/variants.py) ----
+    from harness.variants import variants_stream
+    variants_stream(ctx, "PELT(L2Cost)", lambda: PELT(cost=L2Cost(), min_segment_length=2), ctx.n(3, 20))
+    variants_stream(ctx, "PELT(GaussianVarCost)", lambda: PELT(cost=GaussianVarCost(), min_segment_length=3), ctx.n(2, 12))
